@@ -68,3 +68,14 @@ package did
 //@   ensures [C09,C16] total: true
 //@ func rsaPubKeyUnmarshaller
 //@   ensures [C09,C16] total: true
+//@
+//@ // the text-level and private-key-level conveniences are compositions of the functions above
+//@ func ToPubKey
+//@   use uv_canonical, uv_len
+//@   ensures [C09,C16] total: true
+//@   ensures [C16] composed: result1 == nil ==> parseOK(s) && pubKeyErr(parsedDID(s)) == nil && result0 == pubKeyOf(parsedDID(s))
+//@   ensures [C16] canonical: result1 == nil && parsedDID(s).code == Secp256k1 ==> len(parsedDID(s).bytes) == len(uvarint(parsedDID(s).code)) + 33
+//@ func FromPrivKey
+//@   requires privKey != nil
+//@   ensures [C16] code: result1 == nil ==> genSet(result0.code) && hasPrefix(result0.bytes, uvarint(result0.code)) && didDefined(result0)
+//@   ensures [C09] total: true
